@@ -66,7 +66,11 @@ pub fn run_scene<F: Fn(&StepViolation) -> bool>(prop: &str, scene: &Scene, owns:
                         eprintln!("FOREIGN {} step {} {:?} {} :: {} :: {}", prop, i, v.kind, v.clause, v.detail.lines().next().unwrap_or(""), scene);
                     }
                     st.foreign = true;
-                    return Ok(st);
+                    // a violation that belongs to another property ends the scene only when it was a
+                    // panic: what follows from it for this property is still to be seen
+                    if v.kind == Kind::Panic {
+                        return Ok(st);
+                    }
                 }
             }
         }
